@@ -16,7 +16,7 @@ class C01(InterpProp):
             'had ≥2 enabled candidates competing (priority, inner-first or eventless pre-emption decided)')
 
     def knobs(self, rnd, tier):
-        return gen.Knobs(trans_per_owner=rnd.choice([1.5, 2.5, 4.0]), p_guard=0.6,
+        return gen.Knobs(avoid_nondet=False, trans_per_owner=rnd.choice([1.5, 2.5, 4.0]), p_guard=0.6,
                          p_eventless=rnd.choice([0.1, 0.25]), max_states=rnd.choice([8, 14, 20]))
 
     def check_exec(self, info, res):
